@@ -748,7 +748,7 @@ func (st *state) applyDefaults(instancep reflect.Value, schema *Schema) (err err
 					if err := st.applyDefaults(lvalue, subschema); err != nil {
 						return err
 					}
-					instance.SetMapIndex(reflect.ValueOf(prop), lvalue.Elem())
+					instance.SetMapIndex(mapKey(instance, prop), lvalue.Elem())
 				} else if val.IsValid() {
 					// Recurse into an existing sub-instance.
 					// MapIndex returns a non-addressable value; copy into an addressable lvalue, recurse, then set back.
@@ -758,7 +758,7 @@ func (st *state) applyDefaults(instancep reflect.Value, schema *Schema) (err err
 					if err := st.applyDefaults(lvalue, subschema); err != nil {
 						return err
 					}
-					instance.SetMapIndex(reflect.ValueOf(prop), lvalue.Elem())
+					instance.SetMapIndex(mapKey(instance, prop), lvalue.Elem())
 				} else if schemaHasDefaultsInProperties(subschema) {
 					// Property is missing, but descendants still have some defaults
 					// Create an empty container and recurse to populate
@@ -778,7 +778,7 @@ func (st *state) applyDefaults(instancep reflect.Value, schema *Schema) (err err
 						if err := st.applyDefaults(lvalue, subschema); err != nil {
 							return err
 						}
-						instance.SetMapIndex(reflect.ValueOf(prop), lvalue.Elem())
+						instance.SetMapIndex(mapKey(instance, prop), lvalue.Elem())
 					}
 				}
 			case reflect.Struct:
@@ -820,7 +820,7 @@ func schemaHasDefaultsInProperties(s *Schema) bool {
 func property(v reflect.Value, name string) reflect.Value {
 	switch v.Kind() {
 	case reflect.Map:
-		return v.MapIndex(reflect.ValueOf(name))
+		return v.MapIndex(mapKey(v, name))
 	case reflect.Struct:
 		props := structPropertiesOf(v.Type())
 		// Ignore nonexistent properties.
@@ -831,6 +831,16 @@ func property(v reflect.Value, name string) reflect.Value {
 	default:
 		panic(fmt.Sprintf("property(%q): bad value %s of kind %s", name, v, v.Kind()))
 	}
+}
+
+// mapKey returns name as a value of m's key type, which must be a string kind.
+// The key type may be a named string type, to which a plain string is not assignable.
+func mapKey(m reflect.Value, name string) reflect.Value {
+	k := reflect.ValueOf(name)
+	if kt := m.Type().Key(); kt != k.Type() {
+		k = k.Convert(kt)
+	}
+	return k
 }
 
 // properties returns an iterator over the names and values of all properties
